@@ -441,11 +441,13 @@ impl Core {
                 }
             }
             Err(_) => {
+                // the core task panicked: what it had sent before is still delivered
                 self.down = true;
                 rec["rep"] = json!({"t": "down"});
-                rec["ev"] = json!({});
-                rec["ls"] = json!({});
-                rec["lk"] = json!([]);
+                let (ev, ls, lk) = self.drain();
+                rec["ev"] = ev;
+                rec["ls"] = ls;
+                rec["lk"] = lk;
             }
         }
         rec
